@@ -1,6 +1,6 @@
 (* C01 -- Opening a masked card returns the type it was created with.
    Property theorems only: each is closed by `exact <lemma>` and followed by Print Assumptions. *)
-From Coq Require Import ZArith Znumtheory List Lia Permutation.
+From Coq Require Import ZArith Znumtheory List Lia Permutation Bool.
 From LT Require Import gen_Consts Zbase PowmModel PowmLemmas VtmfModel VtmfLemmas VtmfCount TmcgModel TmcgLemmas.
 Import ListNotations.
 Local Open Scope Z_scope.
